@@ -611,3 +611,19 @@ func init() {
 	externals["(*os.File).Close"] = func(fr *frame, args []value) value { return iface{} }
 	externals["(*os.File).Fd"] = func(fr *frame, args []value) value { return uintptr(99) }
 }
+
+func init() {
+	// context.WithValue checks comparability through internal/reflectlite;
+	// build the valueCtx directly (keys used by the harnesses are comparable).
+	externals["context.WithValue"] = func(fr *frame, args []value) value {
+		if p, ok := args[0].(iface); !ok || p.t == nil {
+			panic(targetPanic{iface{t: types.Typ[types.String], v: "cannot create context from nil parent"}})
+		}
+		if k, ok := args[1].(iface); !ok || k.t == nil {
+			panic(targetPanic{iface{t: types.Typ[types.String], v: "nil key"}})
+		}
+		t := fr.i.prog.ImportedPackage("context").Type("valueCtx").Type()
+		var cell value = structure{args[0], args[1], args[2]}
+		return iface{t: types.NewPointer(t), v: &cell}
+	}
+}
